@@ -29,9 +29,9 @@ Definition exact_factor (cls : class) (prefix : bytes) : option (Z * Z) :=
 
     printed mantissa [n / 10^p] with prefix factor [fn/fd], value [|v| = m * 2^e]:
       | n/10^p * fn/fd - |v| |  <=  1/2 * 10^-p * fn/fd  +  slack * |v|
-    with [slack = 2^-sl]: the code divides in binary64 before printing (one
-    rounding of the quotient, one of a non-representable factor such as 1e-9);
-    [sl = 51] covers both.  With [slack_on = false] the sharp bound. *)
+    with [slack = 2^-sl].  Used with [slack_on = false] (the sharp bound) for
+    Format with an arbitrary Scaler, where the value printed is the binary64
+    quotient itself. *)
 Definition half_unit_ok (slack_on : bool) (sl : Z) (m : positive) (e : Z) (n : Z) (p : nat) (fn fd : Z) : bool :=
   let an := Zpos m * 2 ^ (Z.max e 0) in
   let ad := 2 ^ (Z.max (- e) 0) in
@@ -40,14 +40,48 @@ Definition half_unit_ok (slack_on : bool) (sl : Z) (m : positive) (e : Z) (n : Z
   (* multiplied through by 2 * 2^sl * fd * p10 * ad *)
   2 * 2 ^ sl * lhs <=? 2 ^ sl * fn * ad + (if slack_on then 2 * an * fd * p10 else 0).
 
+(** the same with an explicit allowance [sn/sd * |v|]:
+      | n/10^p * fn/fd - |v| |  <=  1/2 * 10^-p * fn/fd  +  sn/sd * |v|
+    multiplied through by 2 * sd * fd * 10^p * 2^max(-e,0).  [sn = 0] is the
+    statement of the property (the sharp bound) *)
+Definition half_unit_slack (sn sd : Z) (m : positive) (e : Z) (n : Z) (p : nat) (fn fd : Z) : bool :=
+  let an := Zpos m * 2 ^ (Z.max e 0) in
+  let ad := 2 ^ (Z.max (- e) 0) in
+  let p10 := 10 ^ Z.of_nat p in
+  let lhs := Z.abs (n * fn * ad - an * fd * p10) in
+  2 * sd * lhs <=? sd * fn * ad + 2 * sn * an * fd * p10.
+
+(** on a value: finite and non-zero, else false *)
+Definition half_unit_of (sn sd : Z) (v : b64) (n : Z) (p : nat) (fn fd : Z) : bool :=
+  match v with S754_finite _ m e => half_unit_slack sn sd m e n p fn fd | _ => false end.
+
+(** what known finding C10_quotient_rounded_before_printing allows beyond half
+    a unit: Scaler.Format prints the decimal of the binary64 quotient
+    val / Factor.  With a power of two as factor (every binary prefix, no
+    prefix) the quotient is exact: nothing.  With 10^3 .. 10^12 (k M G T) the
+    factor is exact and the quotient is rounded once: 2^-53 |v|.  With 10^-3,
+    10^-6, 10^-9 (m, micro, n) the factor itself is a rounded binary64, f = F (1 + d1),
+    and the quotient q = v / f (1 + d2), |d1|, |d2| <= 2^-53, so
+    |q F - v| <= |v| * 2 * 2^-53 / (1 - 2^-53) < |v| * 2^-52 * (1 + 2^-52) *)
+Definition is_pow2 (z : Z) : bool := (0 <? z) && (2 ^ Z.log2 z =? z).
+Definition quotient_slack (fn fd : Z) : Z * Z :=
+  if (fd =? 1) then (if is_pow2 fn then (0, 1) else (1, 2 ^ 53))
+  else (2 ^ 52 + 1, 2 ^ 104).
+
 (** ** how many significant digits the printed mantissa has: its scaled integer
     lies in [10^(k-1), 10^k) for k digits *)
-Definition four_sig (cls : class) (p : Z) (n : Z) : bool :=
+Definition four_sig_n (cls : class) (p : Z) (n : Z) : bool :=
   (1000 <=? n) &&
   match cls with
   | Binary => if p =? 1 then n <=? 10239 else n <=? 9999     (* mantissa < 1024 *)
   | _ => n <=? 9999                                          (* mantissa < 1000 *)
   end.
+(** four significant digits AND the mantissa n / 10^p in [1, 1000) resp.
+    [1, 1024): with four digits in n that is one to three of them after the
+    point (p = 0 would be a mantissa of 1000 or more, p = 4 one below 1:
+    "0.9999k"); Binary with one decimal may reach 1023.9 *)
+Definition four_sig (cls : class) (p : Z) (n : Z) : bool :=
+  (1 <=? p) && (p <=? 3) && four_sig_n cls p n.
 Definition three_sig (n : Z) : bool := (100 <=? n) && (n <=? 9999).
 
 (** ** magnitude ranges of the statement, as binary64 constants
@@ -87,11 +121,12 @@ Definition spec_min (vals : list b64) : b64 :=
   | a :: r => fold_left (fun mn x => if b64_lt x mn then x else mn) r a
   end.
 
-(** ** ClassOf, as one pass over the text: Binary iff some token equal to B, MB
-    or bytes is in the numerator, where a token is a maximal separator-free
-    piece and "numerator" means the last '*' or '/' before it (if any) is '*'. *)
-Fixpoint spec_class_scan (fuel : nat) (s : bytes) (tok : bytes) (denom : bool) : bool :=
-  let hit := is_bytes_tok (rev tok) && negb denom in
+(** ** ClassOf, as one pass over the text: Binary iff some token that names
+    bytes is in the numerator, where a token is a maximal separator-free piece
+    and "numerator" means the last '*' or '/' before it (if any) is '*'.
+    [is_tok] says which tokens name bytes. *)
+Fixpoint class_scan (is_tok : bytes -> bool) (fuel : nat) (s : bytes) (tok : bytes) (denom : bool) : bool :=
+  let hit := is_tok (rev tok) && negb denom in
   match fuel with
   | O => hit
   | S f =>
@@ -100,14 +135,33 @@ Fixpoint spec_class_scan (fuel : nat) (s : bytes) (tok : bytes) (denom : bool) :
       | c :: r =>
           match sep_at s with
           | Some (k, r') =>
-              hit || spec_class_scan f r' []
+              hit || class_scan is_tok f r' []
                        (match k with SepStar => false | SepSlash => true | SepOther => denom end)
-          | None => spec_class_scan f r (c :: tok) denom
+          | None => class_scan is_tok f r (c :: tok) denom
           end
       end
   end.
-Definition spec_class (unit : bytes) : class :=
-  if spec_class_scan (S (length unit)) unit [] false then Binary else Decimal.
+Definition class_by (is_tok : bytes -> bool) (unit : bytes) : class :=
+  if class_scan is_tok (S (length unit)) unit [] false then Binary else Decimal.
+
+(** the tokens that name bytes, independently of benchunit/parse.go: the byte
+    symbol B alone or with an SI or IEC prefix (kB KB MB GB TB PB EB, KiB MiB GiB
+    TiB PiB EiB) and the word, singular or plural, either capitalisation.
+    ("b" is the bit; "BB", "B2", "MBs" name nothing.) *)
+Definition byte_prefixes : list bytes :=
+  [ []; bs "k"; bs "K"; bs "M"; bs "G"; bs "T"; bs "P"; bs "E";
+    bs "Ki"; bs "Mi"; bs "Gi"; bs "Ti"; bs "Pi"; bs "Ei" ].
+Definition byte_words : list bytes := [bs "byte"; bs "bytes"; bs "Byte"; bs "Bytes"].
+Definition spec_bytes_tok (t : bytes) : bool :=
+  existsb (fun p => beq t (p ++ bs "B")) byte_prefixes || existsb (beq t) byte_words.
+
+(** the property: binary exactly when bytes appear in the numerator *)
+Definition spec_class : bytes -> class := class_by spec_bytes_tok.
+
+(** the three spellings benchunit/parse.go knows (B, MB, bytes): what ClassOf
+    decides (Proofs/ScaleClass.v), and what known finding
+    C10_classof_byte_spellings allows instead of [spec_class] *)
+Definition narrow_class : bytes -> class := class_by is_bytes_tok.
 
 (** ** shortest round-tripping decimal (NoOpScaler): [digits] significant
     digits, reads back to [x], and neither neighbour with one digit fewer does *)
